@@ -6,7 +6,7 @@ GO_RUNS = [
      "harness": ["keystore/c20_test.go", "keystore/c20b_test.go"]},
 ]
 RUN_MODULE = "Run_C20"
-COQ_TARGETS = ["Corr/Run_C20.vo", "Corr/Run_C20B.vo", "Proofs/KeystoreProofs.vo", "Proofs/ResetKeystoreProofs.vo"]
+COQ_TARGETS = ["Corr/Run_C20.vo", "Corr/Run_C20B.vo", "Proofs/KeystoreProofs.vo", "Proofs/ResetKeystoreProofs.vo", "Proofs/RunC20BSound.vo"]
 N = {"quick": 400, "thorough": 12000}
 RULE = ("bounded-buffer run (a quarter of the cases, numbered from 100000): the real ResettableKeystore with WithResetBufferCapacity 1-3 and batch size 1-4 in a "
         "testing/synctest bubble; 0-5 keys before, ResetCids with 1-8 keys fed with pauses of 0-30 ms, every datastore call delayed by 0-2 ms of virtual time "
